@@ -1,6 +1,7 @@
 import Driver.Resolve
 import Driver.Sched
 import Driver.Output
+import Driver.Remote
 /-! Line protocol: `<op> <tok>*` in, one line out (`bad-op` for anything not understood). -/
 open Driver
 
@@ -12,6 +13,7 @@ def dispatch (line : String) : String :=
       if op.startsWith "resolve." then Driver.Resolve.handle op args
       else if op.startsWith "sched." then Driver.Sched.handle op args
       else if op.startsWith "output." then Driver.Output.handle op args
+      else if op.startsWith "remote." then Driver.Remote.handle op args
       else none
     r.getD "bad-op"
 
